@@ -153,7 +153,7 @@ def make_instance(rng, template, tmpdir, tag):
         eps = rng.choice(['ε', '_', 'e'])
         s['inputfile'] = write('g.cfg', txt.render_simple_cfg(RG, eps, rng, {'comments': rng.random() < 0.3, 'declare_epsilon': eps == 'e'}))
         s['start_variable'] = 'T'
-        s['length'] = str(rng.choice([3, 4, 5]))
+        s['length'] = str(rng.choice([0, 1, 3, 4, 5]))
         refs.update(grammar=RG, start_variable='T', length=int(s['length']))
     elif template in ('dfa-complement', 'dfa-reverse', 'dfa-hopfcroft', 'dfa-minimal', 'dfa-for-language', 'dfa-to-regexp'):
         if template == 'dfa-to-regexp':
@@ -166,13 +166,13 @@ def make_instance(rng, template, tmpdir, tag):
         text, _, _ = txt.render_fa(R, 'dfa', None, layout(rng), rng)
         s['inputfile'] = write('d.dfa', text)
         if template == 'dfa-for-language':
-            n = rng.choice([3, 4, 5])
+            n = rng.choice([0, 1, 3, 4, 5])
             s['length'] = str(n)
             s['states'] = str(rng.choice([0, len(R[0]), len(R[0]) + 2]))
             s['selected_word'] = 'a'
             refs['length'] = n
         elif template == 'dfa-reverse':
-            s['length'] = str(rng.choice([4, 5, 6]))
+            s['length'] = str(rng.choice([0, 1, 4, 5, 6]))
         refs.update(dfa=R)
     elif template in ('dfa-union', 'dfa-intersection', 'dfa-symmetric_difference'):
         syms = rng.choice(['ab', 'a', '01'])
@@ -191,7 +191,7 @@ def make_instance(rng, template, tmpdir, tag):
         text, _, _ = txt.render_fa(R, 'nfa', eps, layout(rng), rng)
         s['inputfile'] = write('n.nfa', text)
         if template == 'nfa-for-language':
-            n = rng.choice([3, 4, 5])
+            n = rng.choice([0, 1, 3, 4, 5])
             s['length'] = str(n)
             s['states'] = str(rng.choice([0, len(R[0]), 8]))
             refs['length'] = n
@@ -201,21 +201,21 @@ def make_instance(rng, template, tmpdir, tag):
         eps = rng.choice(['_', 'ε', 'e'])
         text, _, _ = txt.render_pda(RP, eps, layout(rng), rng)
         s['inputfile'] = write('p.pda', text)
-        s['length'] = str(rng.choice([3, 4]))
+        s['length'] = str(rng.choice([0, 1, 3, 4]))
         refs.update(pda=RP, eps=eps, length=int(s['length']))
     elif template == 'regexp-for-language':
         t = rxg.random_tree(rng, rng.randint(1, 5), 'ab', bias=rng.choice([None, 'star', 'unit']))
         while rx.size_iter(t) > 14:
             t = rxg.random_tree(rng, rng.randint(1, 4), 'ab')
         s['inputfile'] = write('r.regexp', txt.render_regexp_simple(t) + '\n')
-        s['length'] = str(rng.choice([3, 4, 5]))
+        s['length'] = str(rng.choice([0, 1, 3, 4, 5]))
         refs.update(regexp=t, length=int(s['length']))
     elif template == 'tm-for-language':
         from vt.props.c11 import random_tm
         RT = random_tm(rng, rng.randint(1, 3), rng.randint(0, 1), rng.randint(1, 2), rng.choice(['_', '□']), p_def=rng.choice([0.6, 0.9]))
         text, _ = txt.render_tm(RT, layout(rng), rng)
         s['inputfile'] = write('t.tm', text)
-        s['length'] = str(rng.choice([2, 3]))
+        s['length'] = str(rng.choice([0, 1, 2, 3]))
         refs.update(tm=RT, length=int(s['length']))
     else:
         raise ValueError(template)
